@@ -26,6 +26,7 @@ import Driver.InfoA
 import Driver.InfoB
 import Driver.DictX
 import Driver.FlacBlocks
+import Driver.FlacLoad
 open Driver
 
 def dispatch (line : String) : String :=
@@ -63,6 +64,7 @@ def dispatch (line : String) : String :=
     | "infob" => infoBOp a
     | "dictx" => dictxOp a
     | "flacblk" => flacblkOp a
+    | "flacload" => flacloadOp a
     | "flacinfo" => flacInfoOp a
     | "ping" => "pong"
     | _ => "bad-op"
